@@ -548,6 +548,27 @@ func c18CheckLine(run *vfRun, cfg *c18Cfg, effHost, shape, step string, req *vfR
 	return l, kind, del
 }
 
+// c18CfgFromProxy reads the cookie configuration of any instance built by the rig (from the parsed options, i.e. the
+// configuration itself), so that the line monitor can be attached to the responses of other checks' instances.
+func c18CfgFromProxy(p *vfProxy) *c18Cfg {
+	o := p.Opts
+	c := &c18Cfg{ID: -1, Secure: o.Cookie.Secure, HTTPOnly: o.Cookie.HTTPOnly, SameSite: o.Cookie.SameSite, Path: o.Cookie.Path, DomainSet: "from-options",
+		Domains: append([]string{}, o.Cookie.Domains...), Name: o.Cookie.Name, NameClass: "from-options", Store: string(o.Session.Type), CSRFPerRequest: o.Cookie.CSRFPerRequest,
+		ReverseProxy: o.ReverseProxy, CSRFExpire: o.Cookie.CSRFExpire, Expire: o.Cookie.Expire, Prefix: o.ProxyPrefix, Flags: p.Flags, P: p}
+	return c
+}
+
+// c18MonitorResponse applies the attribute monitor to every Set-Cookie line of one response of any instance
+// (attribute / Domain / length / Max-Age checks; the deletion-matching rule needs the client's cookie store and is
+// applied by c18Client.do). Intended as the always-on hook of DESIGN.md §2.2.
+func c18MonitorResponse(run *vfRun, p *vfProxy, req *vfReq, resp *vfResp) {
+	cfg := c18CfgFromProxy(p)
+	h := c18Host{Host: req.Host, XFH: req.Get("X-Forwarded-Host"), Shape: "foreign"}
+	for _, raw := range resp.SetCookies() {
+		c18CheckLine(run, cfg, c18EffectiveHost(cfg, h), h.Shape, "monitor", req, resp.Code, raw)
+	}
+}
+
 func (c *c18Cfg) describe() string {
 	return fmt.Sprintf("#%d secure=%v httponly=%v samesite=%q path=%s domains=%v name=%s(%d) store=%s csrf-per-request=%v reverse-proxy=%v", c.ID, c.Secure, c.HTTPOnly, c.SameSite, c.Path, c.Domains, c.NameClass, len(c.Name), c.Store, c.CSRFPerRequest, c.ReverseProxy)
 }
@@ -983,6 +1004,26 @@ func TestVerif_C18(t *testing.T) {
 	sum := sha1.Sum([]byte("pw"))
 	ht := w.File("htpasswd", "bob:{SHA}"+base64.StdEncoding.EncodeToString(sum[:])+"\n")
 
+	// the stand-alone response monitor (the hook other checks can attach) on a rig-default instance driven by the rig's browser
+	{
+		p0 := w.MustProxy("--cookie-domain=example.com", "--cookie-domain=a.example.com", "--cookie-samesite=lax")
+		b := vfNewBrowser("b.a.example.com:8443")
+		steps := []*vfReq{vfGET("/x"), vfGET("/oauth2/sign_in")}
+		for _, rq := range steps {
+			rq.Host = b.Host
+			c18MonitorResponse(run, p0, rq, b.Send(p0, rq))
+		}
+		if l, err := b.StartLogin(p0, vfStdIdentity, "/"); err == nil {
+			rq := vfGET("/oauth2/start?rd=%2F").WithHost(b.Host)
+			c18MonitorResponse(run, p0, rq, l.StartResp)
+			for _, rq := range []*vfReq{vfGET(l.CallbackTarget(p0)), vfGET("/x"), vfGET("/oauth2/sign_out")} {
+				rq.Host = b.Host
+				c18MonitorResponse(run, p0, rq, b.Send(p0, rq))
+			}
+			run.Count("standalone_monitor_flows", 1)
+		}
+	}
+
 	// configurations
 	var vectors [][]int
 	if run.Env.Thorough() {
@@ -1005,8 +1046,12 @@ func TestVerif_C18(t *testing.T) {
 	} else {
 		vectors = c18Covering(run.Rng, c18Levels, 7)
 	}
+	// seeded shuffle: the allocation of the optional extras below (htpasswd file, second instance) and the batches must not
+	// correlate with the enumeration order of the factors
+	run.Rng.Shuffle(len(vectors), func(i, j int) { vectors[i], vectors[j] = vectors[j], vectors[i] })
 	run.Extra("configurations", len(vectors))
-	htLeft := 30 // inotify budget
+	htLeft := 30 // inotify budget (htpasswd watchers)
+	htStep := len(vectors)/30 + 1
 	batch := run.Env.Pick(256, 64)
 	flows := 0
 	for lo := 0; lo < len(vectors); lo += batch {
@@ -1017,7 +1062,7 @@ func TestVerif_C18(t *testing.T) {
 		var cfgs []*c18Cfg
 		for k := lo; k < hi; k++ {
 			cfg := c18FromVector(k, vectors[k])
-			if htLeft > 0 && k%3 == 0 {
+			if htLeft > 0 && k%htStep == 0 {
 				cfg.HTPasswd = true
 				htLeft--
 			}
@@ -1030,8 +1075,8 @@ func TestVerif_C18(t *testing.T) {
 		var fl []*c18Flow
 		for _, cfg := range cfgs {
 			for hi, h := range c18Hosts(cfg, run.Env.Thorough()) {
-				// quick tier: the (expensive) split-session client runs for every second host of a configuration
-				fl = append(fl, &c18Flow{run: run, w: w, cfg: cfg, h: h, large: run.Env.Thorough() || (hi+cfg.ID)%2 == 0})
+				// the (expensive) split-session client runs for every second host of a configuration, alternating over configurations
+				fl = append(fl, &c18Flow{run: run, w: w, cfg: cfg, h: h, large: (hi+cfg.ID)%2 == 0})
 			}
 		}
 		flows += len(fl)
@@ -1059,5 +1104,5 @@ func TestVerif_C18(t *testing.T) {
 		}
 	}
 	run.RaceCheck("")
-	run.Finish(int64(run.Env.Pick(11000, 150000)), run.Env.Pick(1300, 5000))
+	run.Finish(int64(run.Env.Pick(9500, 180000)), run.Env.Pick(1300, 7500))
 }
